@@ -314,12 +314,18 @@ R39 = [
      lambda m: 'let (%s, _) = match %s { Some(vx_v) => vx_v, None => { return Err(%s); } };' % (m.group(1), m.group(2).strip(), m.group(3)), 'R39'),
     (r'let sub_element = ElementRaw \{\s*parent: ElementOrModel::Element\(self_weak\),\s*elemname: element_name,\s*elemtype,\s*content: smallvec!\[\],\s*attributes: smallvec!\[\],\s*file_membership: HashSet::with_capacity\(0\),\s*comment: None,\s*\}\s*\.wrap\(\);',
      lambda m: 'let sub_element = vx_new_element(self_weak, element_name, elemtype);', 'R39'),
+    (r'let other_elemname = \{\s*(?://[^\n]*\n\s*)*let other_element = other\.0\.read\(\);\s*other_element\.elemname\s*\};', lambda m: 'let other_elemname = other.element_name();', 'R39'),
     (r'elemtype\.is_named_in_version\(version\)', lambda m: 'vx_is_named_in_version(elemtype, version)', 'R39'),
 ]
 
 LEAVES = ['find_sub_element', 'find_common_group', 'ElementType.content_mode', 'GroupType.content_mode', 'get_sub_element_multiplicity']
 
 V = 'version as u32'
+UNIQ = '''proof {
+    assert forall|a: usize, b: usize| old(self).calc_post(%s, version as u32, Ok((a, b))) implies a == start_pos && b == end_pos by {
+        lemma_calc_unique(&*old(self), %s, version as u32, a, b, start_pos, end_pos);
+    }
+}'''
 LOOP_PROOF = r'''proof {
     // facts about child idx, whatever branch is taken
     assert(self.content@[idx as int] == *content_item);
@@ -338,15 +344,19 @@ def make_unit(repo_dir):
     spec += r'''
 #[verifier::external_body]
 pub fn vx_is_named_in_version(t: ElementType, v: AutosarVersion) -> (r: bool) { unimplemented!() }
+// what the two inner creation paths (locks, path index, deep copy: leaves) do to the node, as uninterpreted relations of their arguments
+pub uninterp spec fn named_inner_post(before: ElementRaw, after: ElementRaw, name: ElementName, item_name: Seq<char>, position: usize, v: u32, r: Result<Element, AutosarDataError>) -> bool;
+pub uninterp spec fn copied_inner_post(before: ElementRaw, after: ElementRaw, other: Element, position: usize, v: u32, r: Result<Element, AutosarDataError>) -> bool;
 impl ElementRaw {
-    // leaves: the rest of the creation paths (locks, path index, deep copy)
     #[verifier::external_body]
     pub fn create_named_sub_element_inner(&mut self, self_weak: WeakElement, element_name: ElementName, item_name: &str, position: usize, model: &AutosarModel, version: AutosarVersion) -> (r: Result<Element, AutosarDataError>)
         requires position <= old(self).content@.len()
+        ensures named_inner_post(*old(self), *final(self), element_name, item_name@, position, version as u32, r)
     { unimplemented!() }
     #[verifier::external_body]
     pub fn create_copied_sub_element_inner(&mut self, self_weak: WeakElement, other: &Element, position: usize, model: &AutosarModel, version: AutosarVersion) -> (r: Result<Element, AutosarDataError>)
         requires position <= old(self).content@.len()
+        ensures copied_inner_post(*old(self), *final(self), *other, position, version as u32, r)
     { unimplemented!() }
 }
 pub struct AutosarModel { pub opaque: u64 }
@@ -406,6 +416,18 @@ pub struct AutosarModel { pub opaque: u64 }
         lemma_calc_unique(&*old(self), element_name, version as u32, a, b, start_pos, end_pos);
     }
 }''')]),
+           FnSpec('create_named_sub_element', F, impl=IMPL_R, ret='r', body_sub=R39, requires=['old(self).elemtype.typ < n_dt()'],
+                  ensures=['(r is Err && *final(self) == *old(self) && old(self).calc_post(element_name, %s, Err(AutosarDataError::VxOther(0)))) || exists|a: usize, b: usize| old(self).calc_post(element_name, %s, Ok((a, b))) && named_inner_post(*old(self), *final(self), element_name, item_name@, b, %s, r)' % (V, V, V)]),
+           FnSpec('create_named_sub_element_at', F, impl=IMPL_R, ret='r', body_sub=R39, requires=['old(self).elemtype.typ < n_dt()'],
+                  ensures=['(r is Err && *final(self) == *old(self)) || exists|a: usize, b: usize| old(self).calc_post(element_name, %s, Ok((a, b))) && a <= position <= b && named_inner_post(*old(self), *final(self), element_name, item_name@, position, %s, r)' % (V, V),
+                           'forall|a: usize, b: usize| old(self).calc_post(element_name, %s, Ok((a, b))) && !(a <= position <= b) ==> r is Err && *final(self) == *old(self)' % V],
+                  proofs=[dict(after=r'let \(start_pos, end_pos\) = self\.calc_element_insert_range\(element_name, version\)\?;', text=UNIQ % ('element_name', 'element_name'))]),
+           FnSpec('create_copied_sub_element', F, impl=IMPL_R, ret='r', body_sub=R39, requires=['old(self).elemtype.typ < n_dt()'],
+                  ensures=['(r is Err && *final(self) == *old(self)) || exists|a: usize, b: usize| old(self).calc_post(name_of(*other), %s, Ok((a, b))) && copied_inner_post(*old(self), *final(self), *other, b, %s, r)' % (V, V)]),
+           FnSpec('create_copied_sub_element_at', F, impl=IMPL_R, ret='r', body_sub=R39, requires=['old(self).elemtype.typ < n_dt()'],
+                  ensures=['(r is Err && *final(self) == *old(self)) || exists|a: usize, b: usize| old(self).calc_post(name_of(*other), %s, Ok((a, b))) && a <= position <= b && copied_inner_post(*old(self), *final(self), *other, position, %s, r)' % (V, V),
+                           'forall|a: usize, b: usize| old(self).calc_post(name_of(*other), %s, Ok((a, b))) && !(a <= position <= b) ==> r is Err && *final(self) == *old(self)' % V],
+                  proofs=[dict(after=r'let \(start_pos, end_pos\) = self\.calc_element_insert_range\(other_elemname, version\)\?;', text=UNIQ % ('other_elemname', 'other_elemname'))]),
            ]
     u = Unit(name='insertrange', prop='C07', spec=spec, fns=fns,
              wrap={IMPL_R: 'impl ElementRaw', lookups.IMPL_ET: 'impl ElementType', lookups.IMPL_GT: 'impl GroupType'},
